@@ -3,13 +3,37 @@
 // Contracts for govc (contract-based deductive verification); comments only.
 package patcher
 
+//@ import v1 "k8s.io/api/core/v1"
+
+//@ define emptyList(m v1.ResourceList) bool = forall k v1.ResourceName :: !(k in m)
+//@ define sameList(a v1.ResourceList, b v1.ResourceList) bool = forall k v1.ResourceName :: ((k in a) == (k in b)) && a[k] == b[k]
+
 // Property C20: "After reconciliation a PodGroup's reported requested, allocated and non-preemptible
 // resources equal the sums over its pods by phase and current preemptibility".
+// metaData carries the sums and the CURRENT preemptibility; the status written must report them.
 //@ func getStatusWithMetadata
 //@   props C20
 //@   requires metaData != nil
 //@   fresh
 //@   ensures [requested] result.ResourcesStatus.Requested == metaData.Requested
 //@   ensures [allocated] result.ResourcesStatus.Allocated == metaData.Allocated
-//@   ensures [nonpreemptible] !metaData.Preemptible ==> result.ResourcesStatus.AllocatedNonPreemptible == metaData.Allocated
+//@   ensures [nonPreemptibleGroup] !metaData.Preemptible ==> result.ResourcesStatus.AllocatedNonPreemptible == metaData.Allocated
+//@   # GENUINE FINDING (C20, DESIGN section 0): property-derived clause that the real code violates:
+//@   # "non-preemptible resources equal the sums over its pods by ... CURRENT preemptibility": a group that is
+//@   # currently preemptible has no non-preemptible allocation. The code keeps the OLD value instead (stale).
+//@   ensures [finding-stale-nonpreemptible] metaData.Preemptible ==> emptyList(result.ResourcesStatus.AllocatedNonPreemptible)
+//@   # what the code really does for a preemptible group (code-derived, documents the finding below)
+//@   lemma [actualPreemptibleKeepsOld] metaData.Preemptible ==> sameList(result.ResourcesStatus.AllocatedNonPreemptible, originalStatus.ResourcesStatus.AllocatedNonPreemptible)
+//@   # fixpoint (field-wise; reflect.DeepEqual itself has no model): recomputing from the status just produced changes nothing
+//@   lemma [fixpointNonPreemptible] sameList(getStatusWithMetadata(metaData, *result).ResourcesStatus.AllocatedNonPreemptible, result.ResourcesStatus.AllocatedNonPreemptible)
+//@   lemma [fixpointRequested] getStatusWithMetadata(metaData, *result).ResourcesStatus.Requested == result.ResourcesStatus.Requested && getStatusWithMetadata(metaData, *result).ResourcesStatus.Allocated == result.ResourcesStatus.Allocated
+//@   ensures [otherStatusKept] result.Phase == originalStatus.Phase && result.Running == originalStatus.Running && result.Succeeded == originalStatus.Succeeded && result.Failed == originalStatus.Failed && result.Pending == originalStatus.Pending
+//@ end
+
+// The "is a write needed" test must not itself change the stored object (reflect.DeepEqual: no model,
+// so the boolean is not decided here).
+//@ func ShouldUpdatePodGroupStatus
+//@   props C20
+//@   requires podGroup != nil && podGroupMetadata != nil
+//@   pure
 //@ end
